@@ -185,9 +185,12 @@ pub fn fp_alpha(p: &N, tier: Tier, seed: u64) -> FpAlpha {
         let rb = (p - n(1) + p - &ra) % p;
         paired.push(mulm(&rb, &ri, p));
     }
-    let (nc, nr, ns, ng) = (canon.len(), raw.len(), sp.len(), ge.len());
+    // the limb arithmetic sees STORED (Montgomery) values: every special value also as a stored value
+    let sp_raw: Vec<N> = sp.iter().map(|v| mulm(v, &ri, p)).collect();
+    let (nc, nr, ns, ng) = (canon.len(), raw.len(), sp.len() + sp_raw.len(), ge.len());
     let mut all = vec![];
     all.extend(sp);
+    all.extend(sp_raw);
     all.extend(canon);
     all.extend(raw);
     all.extend(paired.clone());
@@ -208,6 +211,8 @@ pub fn fp_small(p: &N, count: usize, seed: u64) -> Vec<N> {
         (p + n(1)) / n(2),
         ri.clone(),          // stored limbs = 1
         negm(&ri, p),        // stored limbs = p-1
+        mulm(&((p - n(1)) / n(2)), &ri, p), // stored limbs = (p-1)/2 : doubling lands exactly on p-1
+        mulm(&((p + n(1)) / n(2)), &ri, p), // stored limbs = (p+1)/2 : doubling lands exactly on p+1
         mulm(&(two(256) - n(1) - p), &ri, p), // stored limbs = 2^256-1-p
         mulm(&from_limbs(&[u64::MAX, u64::MAX, u64::MAX, limbs_of(p)[3] - 1]), &ri, p), // all-ones low limbs
         two(255) % p,
